@@ -85,6 +85,31 @@ def run_prot(prop, tier, seed, fail=False):
             for toks in (["new", "fill:00", "resize:%d" % (n + 100), "fillfrom:%d:5a" % n, "resize:%d" % (4 * n), "drop"],
                          ["new", "fill:00", "lock", "unlock", "resize:%d" % (n + 100), "fillfrom:%d:5a" % n, "resize:%d" % (4 * n), "drop"]):
                 cases.append(Case("prot bytes %d %s" % (n, " ".join(toks)), cls="bytes/zero-page-prefix"))
+    # `Clone::clone_from` between two live regions in the same type state (same and different lengths): the destination keeps its
+    # state — rights, lock, guard pages — and holds the source's bytes; probes follow.  (Not an operation of the Lean model:
+    # judged by the predicate and the release / free() observers.)
+    for n in (1, 32, 4095, 4096, 4097, 8193):
+        for m in sorted({n, n + 1, 10, 2 * n + 1}):
+            for st in ([], ["lock"], ["lock", "ro"], ["lock", "unlock"], ["lock", "unlock", "ro"]):
+                toks = ["new", "fill:a5"] + st + ["new", "resize:%d@1" % m, "fill:5b@1"] + [t + "@1" for t in st]
+                toks += ["clonefrom:1", "wprobe:0", "rprobe:0", "gprobe:aft"]
+                if st and st[-1] == "ro":
+                    toks += ["rw", "fill:11", "ro"]
+                toks += ["unlock", "lock"] if (st and st[0] == "lock" and "unlock" not in st and not fail) else []
+                toks += ["drop", "drop@1"]
+                if fail:
+                    for k in (1, 2, 3, 4):
+                        cases.append(Case("prot bytes %d %s" % (n, " ".join(["failfrom:%d" % k] + [t for t in toks if not t.startswith(("wprobe", "rprobe", "gprobe"))])), cls="bytes/clone_from-fail"))
+                else:
+                    cases.append(Case("prot bytes %d %s" % (n, " ".join(toks)), cls="bytes/clone_from"))
+    if not fail:
+        # a region dropped while a panic unwinds through its owner: same wipes, same unlocks as an ordinary drop
+        for n in (32, 3000, 4096, 8193):
+            for pre in (["new", "fill:a5"], ["new", "fill:a5", "resize:10"], ["new", "fill:a5", "lock"], ["new", "fill:a5", "lock", "unlock", "resize:10"],
+                        ["new", "fill:a5", "lock", "resize:10"], ["new", "fill:a5", "lock", "ro"], ["new", "fill:a5", "resize:%d" % (2 * n + 5), "fill:a6", "resize:7"]):
+                cases.append(Case("prot bytes %d %s" % (n, " ".join(pre + ["panicdrop"])), cls="bytes/drop-while-unwinding"))
+                if "resize" not in " ".join(pre) and n in protfam.ARR_LENS:
+                    cases.append(Case("prot arr %d %s" % (n, " ".join(pre + ["panicdrop"])), cls="arr/drop-while-unwinding"))
     if fail:
         # a refused RE-lock of a region that is unlocked and read-only / no-access / read-write (the k-th lock request of the history)
         for kind in ("bytes", "arr"):
@@ -115,7 +140,7 @@ def run_prot(prop, tier, seed, fail=False):
         res.count(c.cls)
         i = impl.get(c.id, ["missing"])[0]
         m = model.get(c.id, ["n/a"])[0]
-        if "fillfrom:" in c.line or " serde:" in c.line or " stacklock" in c.line:      # suffix fills / serde decoding are not operations of the Lean model: judged by the predicate alone
+        if "fillfrom:" in c.line or " serde:" in c.line or " stacklock" in c.line or " clonefrom:" in c.line or " panicdrop" in c.line:      # suffix fills / serde decoding are not operations of the Lean model: judged by the predicate alone
             m = "n/a"
         if m == "bad-op":
             m = "n/a"; res.extra["model_unsupported"] = res.extra.get("model_unsupported", 0) + 1
@@ -151,6 +176,34 @@ def run_prot(prop, tier, seed, fail=False):
             res.violations.append({"kind": "predicate", "line": c.line, "answers": answers, "why": why})
         elif m != "n/a" and not compare_wild(i, m):
             res.corr_breaks.append({"line": c.line, "answers": answers})
+    # the crate-level constructors that place keys in locked memory (box / signing key pairs, precomputed keys; plain, generated,
+    # read-only), with the k-th and all later lock requests refused: Ok or Err, never a panic, nothing left locked, and an Ok
+    # result is a correct key / key pair
+    CTORS = ["box_new_locked_keypair", "box_gen_locked_keypair", "box_gen_readonly_locked_keypair", "precalculate_locked", "precalculate_readonly_locked",
+             "keypair_precalculate_locked", "keypair_precalculate_readonly_locked", "sign_new_locked_keypair", "sign_gen_locked_keypair", "sign_gen_readonly_locked_keypair"]
+    if prop in ("C14", "C19"):
+        ccases = []
+        for name in CTORS:
+            for k in ([0] if not fail else [1, 2, 3, 4, 5, 1001, 1002, 11001, 11002, 11003, 22002]):
+                ccases.append(Case("lockedctor %s %d" % (name, k), cls="locked-constructor/" + ("refused" if k else "plain")))
+        cl = ["k%d %s" % (i, c.line) for i, c in enumerate(ccases)]
+        cans = run_engine(runner, cl, env=env)
+        for i, c in enumerate(ccases):
+            a = cans.get("k%d" % i, ["missing"])[0]
+            res.evaluations += 1
+            res.count(c.cls)
+            res.distinct.add(hashlib.sha1((c.line + a).encode()).hexdigest())
+            why = None
+            if a.startswith("panic") or a == "missing" or a.startswith("abort"):
+                why = "the constructor panicked / died instead of returning an error"
+            elif " lck=0" not in a + " ":
+                why = "memory is still locked after the constructor's result (or error) was dropped: " + a
+            elif a.startswith("ok") and "check=ok" not in a:
+                why = "the constructor returned Ok with a wrong key / key pair"
+            elif not fail and not a.startswith("ok"):
+                why = "the constructor failed although no lock request was refused"
+            if why:
+                res.violations.append({"kind": "predicate", "line": c.line, "answers": {"impl": a}, "why": why})
     if tier == "thorough" and lean["build_ok"]:
         okc, out = leanchecker(prop)
         res.extra["leanchecker"] = "ok" if okc else out
